@@ -57,7 +57,7 @@ class Check:
                 "Option<Result<&T,E>>, Vec<Result<&T,E>>, Vec<Option<&T>>, (&T,T), (&T,&T), (T,&T,T), Poll<Option<&T>>, owned "
                 "composites incl. same-type twins Result<T,T>/(T,T)); the OutputKind each method gets is read from the REAL "
                 "macro (library call on the same trait source); every variant and element counts 0..4, configured through the "
-                "single-use path (some_call.returns), the repeatable path (each_call.returns) and returns(..).n_times(2), "
+                "single-use path (some_call.returns), the repeatable paths each_call.returns, some_call.returns(..).n_times(2) and some_call.returns(..).at_least_times(1), "
                 "called three times; observed S-expressions compared with the Lean Output model call by call; oracle: first "
                 "observation equals the configured value. non-trivial = composite value with >= 2 leaves or a single-use case")
 
